@@ -83,6 +83,7 @@ func (prop) Generate(rng *sim.Rng, tier string, runIndex int) driver.Scenario {
 			sc.Tasks = append(sc.Tasks, ops)
 		}
 	case "notify":
+		sc.Base = []uint32{0, 0, 0xfffffffe, 0xfffffffc, 0x7fffffff, 0x7ffffffe}[rng.Intn(6)]
 		for t := 0; t < nt; t++ {
 			var ops []Op
 			for i, n := 0, rng.Range(1, maxOps-2); i < n; i++ {
@@ -169,6 +170,7 @@ func (prop) Generate(rng *sim.Rng, tier string, runIndex int) driver.Scenario {
 			sc.Tasks = append(sc.Tasks, ops)
 		}
 	case "cond":
+		sc.Base = []uint32{0, 0, 0xfffffffe, 0xfffffffc, 0x7fffffff, 0x7ffffffe}[rng.Intn(6)]
 		for t := 0; t < nt; t++ {
 			var ops []Op
 			for i, n := 0, rng.Range(1, maxOps-2); i < n; i++ {
